@@ -1046,6 +1046,28 @@ class Rewriter:
         self.note('map_err/ok_or_else closure -> match (std definition)', n)
         return code
 
+    # ---- R11b: OPT.or_else(|| BODY) -> match OPT { Some(v) => Some(v), None => BODY }   (definition of Option::or_else; a
+    #           closure without parameters can only be Option's)
+    def opt_or_else(self, code):
+        n = 0
+        while True:
+            m = mask(code)
+            mm = re.search(r'\.\s*or_else\s*\(\s*\|\s*\|', m)
+            if not mm:
+                break
+            dot = mm.start()
+            bar2 = mm.end() - 1
+            op = m.rfind('(', 0, bar2)
+            cp = match_close(m, op)
+            body = code[bar2 + 1:cp].strip()
+            rs = recv_start(m, dot)
+            recv = code[rs:dot].strip()
+            rep = '(match %s { Some(v__) => Some(v__), None => %s })' % (recv, body)
+            code = code[:rs] + rep + code[cp + 1:]
+            n += 1
+        self.note('opt.or_else(|| e) -> match (std definition)', n)
+        return code
+
     # ---- R12: `for (IDX, X) in RECV.iter().enumerate()` whose index only feeds format! arguments (message text)
     #          -> `for X in &RECV`, the index expressions inside the messages replaced by 0usize
     def drop_debug_only(self, code):
@@ -1150,6 +1172,12 @@ class Rewriter:
             if sk:
                 skip = sk.group(1).strip()
                 it_expr = it_expr[:sk.start()]
+            take = None
+            tk = re.search(r'\s*\.\s*take\s*\(((?:[^()]|\([^()]*\))*)\)\s*$', it_expr)
+            if tk:
+                # `.enumerate().take(e)[.skip(s)]`: indices s .. min(e, len)
+                take = tk.group(1).strip()
+                it_expr = it_expr[:tk.start()]
             r2 = re.sub(r'\s*\.\s*iter\s*\(\s*\)\s*\.\s*enumerate\s*\(\s*\)\s*$', '', it_expr)
             if r2 == it_expr:
                 raise ExtractError('enumerate loop of unsupported shape: ' + it_expr[:60])
@@ -1159,7 +1187,7 @@ class Rewriter:
             for fm in re.finditer(r'(?<![A-Za-z0-9_])format!\s*\(', bm):
                 fspans.append((fm.end() - 1, match_close(bm, fm.end() - 1)))
             idx_outside = any(not any(a < u.start() < b for a, b in fspans) for u in re.finditer(r'(?<![A-Za-z0-9_.])' + re.escape(idx) + r'(?![A-Za-z0-9_])', bm))
-            if skip is not None or idx_outside or force_counter:
+            if skip is not None or take is not None or idx_outside or force_counter:
                 # the index is needed: counter loop  { let mut i = S; while i < E.len() { let x = &E[i]; BODY; i += 1; } }
                 has_continue = re.search(r'(?<![A-Za-z0-9_])continue(?![A-Za-z0-9_])', bm)
                 if has_continue and re.search(r'(?<![A-Za-z0-9_.])(for|while|loop)(?![A-Za-z0-9_])', bm[1:]):
@@ -1178,10 +1206,14 @@ class Rewriter:
                         last = cm_.end()
                     inner = out + inner[last:]
                     self.note('continue in a counter loop -> { i += 1; continue; }', 1)
-                rep = ('{ let mut %s: usize = %s; while %s < %s.len() /*@auto invariant %s >= %s; decreases %s.len() - %s*/ { let %s = &%s[%s]; %s\n %s += 1; } }'
-                       % (idx, s0, idx, seq, idx, s0, seq, idx, var, seq, idx, inner, idx))
+                if take is not None:
+                    rep = ('{ let take__: usize = %s; let mut %s: usize = %s; while %s < %s.len() && %s < take__ /*@auto invariant %s >= %s; decreases %s.len() - %s*/ { let %s = &%s[%s]; %s\n %s += 1; } }'
+                           % (take, idx, s0, idx, seq, idx, idx, s0, seq, idx, var, seq, idx, inner, idx))
+                else:
+                    rep = ('{ let mut %s: usize = %s; while %s < %s.len() /*@auto invariant %s >= %s; decreases %s.len() - %s*/ { let %s = &%s[%s]; %s\n %s += 1; } }'
+                           % (idx, s0, idx, seq, idx, s0, seq, idx, var, seq, idx, inner, idx))
                 code = code[:mm.start()] + rep + code[cb + 1:]
-                self.note('for (i, x) in v.iter().enumerate()[.skip(s)] -> counter loop', 1)
+                self.note('for (i, x) in v.iter().enumerate()[.take(e)][.skip(s)] -> counter loop', 1)
                 continue
             # every use of idx must be inside a format!(...) call
             spans = []
@@ -1275,6 +1307,7 @@ class Rewriter:
         code = self.local_const_strs(code)
         code = self.local_const_slices(code)
         code = self.map_collect_loops(code)
+        code = self.opt_or_else(code)
         if not opts.get('no_while_let'):
             code = self.while_let(code)
         if not opts.get('no_str_match'):
@@ -1606,6 +1639,7 @@ METHOD_RULES = [
     (r'\.\s*parse\s*::\s*<\s*(u32|i32|u8|u16|u64|usize|f64)\s*>\s*\(', r'vx_parse_\1', 'rename', 'str.parse::<T>->vx_parse_T'),
     (r'\.\s*trim_end_matches\s*\(\s*\[\s*(\x27[^\x27]+\x27)\s*,\s*(\x27[^\x27]+\x27)\s*\]\s*\)', r'vx_trim_end_matches2(\1, \2)', 'replace_tail', 'str.trim_end_matches([c1, c2])->vx_trim_end_matches2'),
     (r'\.\s*trim_start_matches\s*\(\s*\|\s*c\s*:\s*char\s*\|\s*c\s*\.\s*is_whitespace\s*\(\s*\)\s*\)', 'vx_trim_start()', 'rename_whole', 'str.trim_start_matches(is_whitespace)->vx_trim_start'),
+    (r'(?#%: matched on the unmasked text, the pattern contains a char literal)\.\s*matches\s*\(\s*(\x27(?:\\.|[^\x27\\])\x27)\s*\)\s*\.\s*count\s*\(\s*\)', r'vx_count_char(\1)', 'replace_tail', 'str.matches(c).count()->vx_count_char'),
     (r'\.\s*chars\s*\(\s*\)\s*\.\s*nth\s*\(', 'vx_nth_char', 'rename', 'str.chars().nth->vx_nth_char'),
     (r'\.\s*chars\s*\(\s*\)\s*\.\s*last\s*\(', 'vx_last_char', 'rename', 'str.chars().last->vx_last_char'),
     (r'\.\s*lines\s*\(\s*\)\s*\.\s*collect\s*(::\s*<[^()]*>)?\s*\(', 'vx_lines', 'rename', 'str.lines().collect->vx_lines'),
